@@ -608,6 +608,12 @@ func c20samples(c *core.Ctx) {
 			c20fail(c, "Coal", "Coal wrong on small argument lists")
 			return
 		}
+		// "non-zero" for Coal is != the zero value (its definition compares with the
+		// zero value; only IsZero honours an IsZero method)
+		if typ.Coal(zeroer{}, zeroer{V: 0, Mark: 9}, zeroer{V: 1}) != (zeroer{V: 0, Mark: 9}) || typ.Coal(weirdZero{}, weirdZero{5}, weirdZero{1}) != (weirdZero{5}) {
+			c20fail(c, "Coal:method-types", "Coal must return the first argument that differs from the zero value, whatever an IsZero method of the type says")
+			return
+		}
 		n := r.Range(0, 6)
 		args := make([]int, n)
 		want := 0
